@@ -76,7 +76,10 @@ AllStmts ==
 Stmts == CASE Alphabet = "fn" -> FnStmts [] Alphabet = "data" -> DataStmts [] OTHER -> AllStmts
 
 Init == SInit
-Next == \E st \in Stmts : Len(hist) < SDepth /\ Do(st)
+\* in the function alphabet the last statement of a behaviour is an observation (a call): the other last statements add
+\* nothing to what their prefixes already show
+FnObs == {St(ECall(EId(n), <<ENum(2)>>), "") : n \in Vars}
+Next == \E st \in Stmts : (Len(hist) < SDepth) /\ ((Alphabet = "fn" /\ Len(hist) = SDepth - 1) => (st \in FnObs)) /\ Do(st)
 Spec == Init /\ [][Next]_svars
 
 EmitDone == Len(hist) = SDepth => PrintT(<<"CASE", ToJson([steps |-> hist, outs |-> outs])>>)
